@@ -242,5 +242,19 @@ def build(*, fact, strategy, cal, ts, nu, problem, damp=0.0, base_scale=None, in
                 tcoeffs=tc, d=d, n=n)
 
 
+def drift_of(prior, n, d):
+    """SDE drift matrix (dense layout) of the exponential priors built by ``build`` (from their definitions)."""
+    A = np.kron(np.diag(np.ones(n - 1), k=1), np.eye(d)) if n > 1 else np.zeros((d, d))
+    if prior == "ou":
+        A[-d:, -d:] = -0.5 * np.eye(d) + 0.1 * np.ones((d, d))
+    elif prior == "matern":
+        z = math.sqrt(2 * (n - 0.5)) / 1.3
+        for i in range(n):
+            A[-d:, i * d : (i + 1) * d] = -math.comb(n, i) * z ** (n - i) * np.eye(d)
+    else:
+        raise ValueError(prior)
+    return A
+
+
 def loguniform(rng, lo, hi):
     return math.exp(rng.uniform(math.log(lo), math.log(hi)))
